@@ -205,6 +205,8 @@ pub fn run(cfg: &Cfg) -> Report {
         let n = 4 + rng.below(6);
         let m = 3 + rng.below(14);
         let offset = if rng.chance(1, 4) { rng.below(50) } else { 0 };
+        // sparse, non-contiguous vertex names in a third of the cases
+        let stretch = if rng.chance(1, 3) { 2 + rng.below(7) } else { 1 };
         let mut edges: Vec<Edge> = vec![];
         for _ in 0..m {
             let v = rng.below(n);
@@ -212,7 +214,7 @@ pub fn run(cfg: &Cfg) -> Report {
             if w == v {
                 w = (v + 1) % n;
             }
-            edges.push((v + offset, w + offset));
+            edges.push((v * stretch + offset, w * stretch + offset));
         }
         if rng.chance(1, 3) {
             // duplicates in the input are legitimate (the API takes an iterator of pairs)
